@@ -9,6 +9,7 @@ import Pk.Names
 import Pk.Gram
 import Pk.FitLoop
 import Pk.Numeric
+import Pk.Centers
 /-! Line-protocol driver for the Mathlib-free model: one request per line on stdin, one reply per
 line on stdout.  The harness (`/verif/harness`) sends the same cases to the real pykoop and diffs. -/
 open Pk
@@ -329,6 +330,23 @@ def cmdRbf : P String := do
   let rows := X.map fun x => Numeric.rbfRow kind shape offset C x
   pure ("ok " ++ " ".intercalate (rows.map fun r => " ".intercalate (r.map showFloat)))
 
+/-- `centers range <sym 0|1> <X>` -> per-feature `lo hi`;  `centers grid <sym> <k> <X>` -> grid centres -/
+def cmdCenters : P String := do
+  let what ← tok
+  let sym ← pBool
+  match what with
+  | "range" => do
+    let X ← pRMat
+    let nf := (X.headD []).length
+    let r := Centers.featureRange sym X nf
+    pure ("ok " ++ " ".intercalate (r.map fun (lo, hi) => showRat lo ++ " " ++ showRat hi))
+  | "grid" => do
+    let k ← pNat
+    let X ← pRMat
+    let nf := (X.headD []).length
+    pure ("ok " ++ showRMat (Centers.gridCenters sym k X nf))
+  | _ => throw s!"bad centers command {what}"
+
 def intCells : Cells Int := ⟨0, Int.toNat, Int.ofNat⟩
 
 def pRaw : P (Raw Int) := do
@@ -384,6 +402,7 @@ def dispatch : P String := do
   | "regargs" => cmdRegArgs
   | "predict" => cmdPredict
   | "traj" => cmdTraj
+  | "centers" => cmdCenters
   | "rff" => cmdRff
   | "rbf" => cmdRbf
   | "edmd" => cmdEdmd
